@@ -9,6 +9,8 @@
 //!                                           only include path / exclude path / include name
 //!          M <ci> <base> <incs> <excs> <names> <path>*   PathSelector with several include paths, exclude paths
 //!                                           and names (comma-separated lists of strings, "_" = empty list)
+//!          K <ci> <glob> <path>*            the dedupe-side options: the glob as the only --keep-name / --keep-path / --name / --path
+//!                                           pattern of a DedupeConfig; res = <should_keep(kn)><should_keep(kp)><may_drop(n)><may_drop(p)>
 //!          F <regex text>                   regex::verif::get_fixed_prefix
 //!          L <c>                            String::to_lowercase of the single character c
 //! output:  D: `ok <regex text> <res>*` | `err` | `panic`
@@ -171,6 +173,29 @@ fn multi(ci: bool, base: &str, incs: &[String], excs: &[String], names: &[String
     out
 }
 
+fn keepdrop(ci: bool, glob: &str, paths: &[String]) -> String {
+    use fclones::verif_api::dedupe::verif::{may_drop, should_keep};
+    use fclones::config::DedupeConfig;
+    let mk = || Pattern::glob_with(glob, &opts(ci));
+    if mk().is_err() {
+        return "err".to_string();
+    }
+    let kn = DedupeConfig { keep_name_patterns: vec![mk().unwrap()], ..DedupeConfig::default() };
+    let kp = DedupeConfig { keep_path_patterns: vec![mk().unwrap()], ..DedupeConfig::default() };
+    let dn = DedupeConfig { name_patterns: vec![mk().unwrap()], ..DedupeConfig::default() };
+    let dp = DedupeConfig { path_patterns: vec![mk().unwrap()], ..DedupeConfig::default() };
+    let mut out = "ok -".to_string();
+    for p in paths {
+        let path = Path::from(p.as_str());
+        out.push(' ');
+        out.push(bit(should_keep(&path, &kn)));
+        out.push(bit(should_keep(&path, &kp)));
+        out.push(bit(may_drop(&path, &dn)));
+        out.push(bit(may_drop(&path, &dp)));
+    }
+    out
+}
+
 fn case(line: &str) -> String {
     let f: Vec<&str> = line.split(' ').filter(|x| !x.is_empty()).collect();
     match f.first().copied() {
@@ -181,6 +206,10 @@ fn case(line: &str) -> String {
         Some("S") if f.len() >= 4 => {
             let paths: Vec<String> = f[4..].iter().map(|x| dec(x)).collect();
             selector(f[1] == "1", &dec(f[2]), &dec(f[3]), &paths)
+        }
+        Some("K") if f.len() >= 3 => {
+            let paths: Vec<String> = f[3..].iter().map(|x| dec(x)).collect();
+            keepdrop(f[1] == "1", &dec(f[2]), &paths)
         }
         Some("M") if f.len() >= 6 => {
             let paths: Vec<String> = f[6..].iter().map(|x| dec(x)).collect();
